@@ -60,13 +60,24 @@ Proof. exact rect_vs_trapz. Qed.
 Print Assumptions rect_is_trapz_plus_ends.
 
 (* the stand-alone integral helper obeys the same rule (row-wise / column-wise) and is linear *)
-Theorem integral_helper_rows : forall d M, integral d (A2 M) true = Ok (A1 (map (integ d true) M)).
+Theorem integral_helper_rows : forall d M, integral d (A2 M) 1 = Ok (A1 (map (integ d true) M)).
 Proof. exact integral_rows. Qed.
 Print Assumptions integral_helper_rows.
 Theorem integral_helper_cols : forall d M j, (j < ncols M)%nat ->
-  exists r, integral d (A2 M) false = Ok (A1 r) /\ nthQ r j = integ d true (column M j).
+  exists r, integral d (A2 M) 0 = Ok (A1 r) /\ nthQ r j = integ d true (column M j).
 Proof. exact integral_cols_entry. Qed.
 Print Assumptions integral_helper_cols.
+(* rank 3, integration along the FIRST axis: entry (j,k) integrates T[.][j][k] — the other
+   two axes keep their order *)
+Theorem integral_helper_rank3_first : forall d T j k,
+  (j < length (nth 0 T []))%nat -> (k < ncols (nth 0 T []))%nat ->
+  exists R, integral d (A3 T) 0 = Ok (A2 R) /\
+    nthQ (nthV R j) k = integ d true (map (fun M => nthQ (nthV M j) k) T).
+Proof. exact integral3_first_entry. Qed.
+Print Assumptions integral_helper_rank3_first.
+Theorem integral_helper_rank3_middle : forall d T, integral d (A3 T) 1 = Ok (A2 (map (cols_integ d) T)).
+Proof. exact integral3_middle. Qed.
+Print Assumptions integral_helper_rank3_middle.
 Theorem integral_linear : forall d tz a b u v, length u = length v ->
   integ d tz (lin a b u v) == a * integ d tz u + b * integ d tz v.
 Proof. exact integ_linear. Qed.
